@@ -134,6 +134,19 @@ func (g *ExecutionGraph) IsRunning() bool {
 	return false
 }
 
+// isStopping reports whether some step that was told to stop (and is already
+// marked canceled) has not finished yet: its process may still be alive.
+func (g *ExecutionGraph) isStopping() bool {
+	g.mu.RLock()
+	defer g.mu.RUnlock()
+	for _, node := range g.Nodes() {
+		if node.isStopping() {
+			return true
+		}
+	}
+	return false
+}
+
 func (g *ExecutionGraph) FinishAt() time.Time {
 	g.mu.RLock()
 	defer g.mu.RUnlock()
